@@ -145,6 +145,8 @@ func (s *scope) Get(serviceType reflect.Type) (any, error) {
 		return nil, ErrServiceTypeNil
 	}
 
+	verifPoint("scope.Get.checked")
+
 	key := instanceKey{Type: serviceType}
 	return s.resolve(key, nil)
 }
@@ -217,12 +219,14 @@ func (s *scope) CreateScope(ctx context.Context) (Scope, error) {
 	if ctx == nil {
 		ctx = s.context
 	}
+	verifPoint("scope.CreateScope.checked")
 
 	ctx, cancel := context.WithCancel(ctx)
 	child, err := newScope(s.rootProvider, s, ctx, cancel)
 	if err != nil {
 		return nil, fmt.Errorf("failed to create child scope: %w", err)
 	}
+	verifPoint("scope.CreateScope.built")
 
 	// Track child. The tables are nil once this scope or the provider has
 	// been closed: a creation that overlaps the Close reports the disposed
@@ -235,6 +239,7 @@ func (s *scope) CreateScope(ctx context.Context) (Scope, error) {
 	}
 	s.children[child] = struct{}{}
 	s.childrenMu.Unlock()
+	verifPoint("scope.CreateScope.tracked")
 
 	// Track in provider
 	s.rootProvider.scopesMu.Lock()
@@ -245,6 +250,7 @@ func (s *scope) CreateScope(ctx context.Context) (Scope, error) {
 	}
 	s.rootProvider.scopes[child] = struct{}{}
 	s.rootProvider.scopesMu.Unlock()
+	verifPoint("scope.CreateScope.registered")
 
 	// Auto-close on context cancellation
 	go func() {
@@ -267,6 +273,7 @@ func (s *scope) Close() error {
 		<-s.closeDone
 		return nil
 	}
+	verifPoint("scope.Close.won")
 
 	err := s.dispose()
 	s.closeErr = err
@@ -303,12 +310,14 @@ func (s *scope) dispose() error {
 	}
 	s.children = nil
 	s.childrenMu.Unlock()
+	verifPoint("scope.dispose.listed")
 
 	for _, child := range children {
 		if err := child.closeFromOwner(); err != nil {
 			errs = append(errs, fmt.Errorf("failed to close child scope: %w", err))
 		}
 	}
+	verifPoint("scope.dispose.children")
 
 	// Cancel context. This happens after the children are closed: cancelling
 	// wakes the watchers of all descendants whose contexts derive from this
@@ -318,6 +327,7 @@ func (s *scope) dispose() error {
 	if s.cancel != nil {
 		s.cancel()
 	}
+	verifPoint("scope.dispose.cancelled")
 
 	// Dispose all disposable scoped instances in reverse order
 	s.disposablesMu.Lock()
@@ -325,12 +335,14 @@ func (s *scope) dispose() error {
 	s.disposables = nil
 	s.drained = true
 	s.disposablesMu.Unlock()
+	verifPoint("scope.dispose.drained")
 
 	for i := len(disposables) - 1; i >= 0; i-- {
 		if err := disposables[i].Close(); err != nil {
 			errs = append(errs, fmt.Errorf("failed to dispose scoped instance: %w", err))
 		}
 	}
+	verifPoint("scope.dispose.disposed")
 
 	// Remove from parent's children
 	if s.parentScope != nil {
@@ -345,6 +357,7 @@ func (s *scope) dispose() error {
 		delete(s.rootProvider.scopes, s)
 		s.rootProvider.scopesMu.Unlock()
 	}
+	verifPoint("scope.dispose.detached")
 
 	// Clear instances
 	s.instancesMu.Lock()
@@ -415,6 +428,7 @@ func (s *scope) setInstance(descriptor *Descriptor, key instanceKey, instance an
 		}
 		s.instances[key] = instance
 		s.instancesMu.Unlock()
+		verifPoint("scope.setInstance.cached")
 		fallthrough
 	case Transient:
 		if d, ok := instance.(Disposable); ok {
@@ -515,11 +529,13 @@ func (s *scope) resolve(key instanceKey, descriptor *Descriptor) (any, error) {
 		if instance, ok := s.getInstance(key); ok {
 			return instance, nil
 		}
+		verifPoint("scope.resolve.miss")
 
 		// Serialize construction per registration so that concurrent
 		// resolutions in one scope end up with one instance
 		unlock := s.lockConstruction(descriptor)
 		defer unlock()
+		verifPoint("scope.resolve.locked")
 
 		if instance, ok := s.getInstance(key); ok {
 			return instance, nil
